@@ -202,13 +202,30 @@ def _a2(ctx, rep):
                           % ("is left" if r[2] else "continues", r[1]), node=leaves[0])
             continue
         a, b = r
-        vt = unparse(a)
-        if isinstance(a, ast.Name) and len(ldefs.get(a.id, [])) == 1:
-            vt = unparse(ldefs[a.id][0])
+        # the compared quantity with the loop body's once-bound locals written out
+        from ..symsum import subst
+        one = {k_: v_[0] for k_, v_ in ldefs.items() if len(v_) == 1}
+        av = a
+        for _ in range(4):
+            av = subst(av, one)
+        vt = unparse(av)
+        # np.sum(<errors>[-W:]) with W = min(len(<errors>), <option>.num_history_stopping_criterion_gradient_descent)
+        ok_win = False
+        if isinstance(av, ast.Call) and (dotted(av.func) or "").split(".")[-1] == "sum" and len(av.args) == 1 and isinstance(av.args[0], ast.Subscript) \
+                and isinstance(av.args[0].slice, ast.Slice) and av.args[0].slice.upper is None and av.args[0].slice.step is None:
+            lst = unparse(av.args[0].value)
+            lo = av.args[0].slice.lower
+            if isinstance(lo, ast.UnaryOp) and isinstance(lo.op, ast.USub) and isinstance(lo.operand, ast.Call) and dotted(lo.operand.func) == "min" \
+                    and len(lo.operand.args) == 2:
+                ws = sorted(unparse(x) for x in lo.operand.args)
+                ok_win = ("len(%s)" % lst) in ws and any(w.endswith(".num_history_stopping_criterion_gradient_descent") for w in ws) \
+                    and any(isinstance(c_, ast.Call) and isinstance(c_.func, ast.Attribute) and c_.func.attr == "append" and unparse(c_.func.value) == lst
+                            for c_ in ast.walk(lp))
         if unparse(b) != "eps":
             rep.violation("A2", f, con, "the loop is left when %s <= %s; the threshold must be eps" % (unparse(a), unparse(b)), node=leaves[0])
-        elif vt != "np.sum(error_values[-sum_range:])":
-            rep.violation("A2", f, con, "compared quantity is %s, expected the windowed sum np.sum(error_values[-sum_range:])" % vt, node=leaves[0])
+        elif not ok_win:
+            rep.violation("A2", f, con, "compared quantity is %s, expected the windowed sum np.sum(error_values[-min(len(error_values), num_history):])" % vt,
+                          node=leaves[0])
         else:
             rep.holds("A2", f, con, "continue while windowed sum > eps", node=leaves[0])
 
